@@ -41,7 +41,7 @@ constexpr uint64_t kInf = ~0ULL;
 
 struct Cover {
     uint64_t histories = 0, ops = 0, notifies = 0, notifiesWithCallbacks = 0, callbacks = 0, subscribes = 0, unsubscribes = 0, shrinks = 0, existsCalls = 0, depthCalls = 0;
-    uint64_t fastCases = 0, fastOps = 0, fastThrows = 0, fastStale = 0, crowdCases = 0, maxSimultaneousDeliveries = 0;
+    uint64_t fastCases = 0, fastOps = 0, fastThrows = 0, fastStale = 0, crowdCases = 0, maxSimultaneousDeliveries = 0, forwardCases = 0, forwardedDeliveries = 0, forwardWritesJudged = 0;
     uint64_t linHistories = 0, linOps = 0, linNodes = 0, linInconclusive = 0, linWithOverlap = 0;
     uint64_t writesOverlappingNotify = 0, snapshotsJudged = 0, snapshotsWithConcurrentWrite = 0, missedJudged = 0, maxThreads = 0, nontrivialCases = 0;
     std::vector<uint64_t> fps;
@@ -762,6 +762,89 @@ void runCrowdCase(uint64_t c, rt::Rng rng) {
     }
 }
 
+
+// ------------------------------------------------------------------ two routers, one forwarding into the other
+// An observer of router `front` forwards the event to router `back` (it never calls back into its own router), while
+// other threads subscribe, unsubscribe and shrink on `back` and notify it directly. Whatever a router keeps per thread
+// for its own deliveries must not leak into the other one: a write on `back` that is called and returns entirely within
+// one delivery of `back` took effect while that delivery was in progress.
+void runForwardCase(uint64_t c, rt::Rng rng) {
+    int notifiers = (int) rng.range(2, 4), rounds = (int) rng.range(15, 40);
+    unsigned dwell = (unsigned) rng.range(100, 400);
+    char desc[200];
+    snprintf(desc, sizeof desc, "forwarding case %" PRIu64 ": %d threads notify front->back (%d rounds, callback on back dwells %u us), one thread writes to back", c, notifiers, rounds, dwell);
+    gDesc = desc;
+    rt::crumb("%s", desc);
+    auto *front = new ConcurrentSubjectRouter();
+    auto *back = new ConcurrentSubjectRouter();
+    spy::unwatchAll();
+    spy::watch(front, sizeof(ConcurrentSubjectRouter));
+    spy::watch(back, sizeof(ConcurrentSubjectRouter));
+    spy::Delays d;
+    if (rng.chance(500)) { d.afterWake = 150; d.afterUnlock = 50; d.maxUs = 40; d.spurious = 50; }
+    spy::configure(d, rt::mix(rt::st().seed, c));
+    struct Iv { uint64_t a, b; };
+    std::mutex ivM;
+    std::vector<Iv> deliveries, writes;
+    const std::vector<int> KB = {1, 0}, KF = {0};
+    USubscription sb = back->subscribe(build(KB), [&]() {
+        uint64_t a = spy::stamp();
+        usleep(dwell);
+        uint64_t b = spy::stamp();
+        std::lock_guard l{ivM};
+        deliveries.push_back({a, b});
+    });
+    std::atomic<uint64_t> forwarded{0};
+    USubscription sf = front->subscribe(build(KF), [&]() { back->notify(build(KB)); forwarded.fetch_add(1, std::memory_order_relaxed); });
+    std::atomic<int> go{0}, done{0};
+    std::vector<std::thread> th;
+    for (int t = 0; t < notifiers; ++t)
+        th.emplace_back([&, direct = t == 0 && rng.chance(500)] {
+            while (!go.load(std::memory_order_acquire)) sched_yield();
+            for (int k = 0; k < rounds; ++k) { if (direct && (k & 3) == 3) back->notify(build(KB)); else front->notify(build(KF)); }
+            done.fetch_add(1);
+        });
+    std::thread writer([&, seed = rng.next()] {
+        rt::Rng r(seed);
+        while (!go.load(std::memory_order_acquire)) sched_yield();
+        std::vector<Iv> mine;
+        while (done.load() < notifiers) {
+            uint64_t a = spy::stamp();
+            USubscription s2 = back->subscribe(build({2, (int) r.below(3)}), []() {});
+            uint64_t b = spy::stamp();
+            mine.push_back({a, b});
+            a = spy::stamp(); s2->unsubscribe(); b = spy::stamp();
+            mine.push_back({a, b});
+            a = spy::stamp(); back->shrink(build({-1, -1})); b = spy::stamp();
+            mine.push_back({a, b});
+            usleep((useconds_t) r.below(120));
+        }
+        std::lock_guard l{ivM};
+        writes = std::move(mine);
+    });
+    go.store(1, std::memory_order_release);
+    for (auto &x : th) x.join();
+    writer.join();
+    spy::disableDelays();
+    uint64_t inside = 0;
+    for (auto &w : writes)
+        for (auto &dl : deliveries)
+            if (dl.a < w.a && w.b < dl.b) ++inside;
+    if (inside) fail("write-during-delivery", "forward", std::to_string(inside) + " subscribe/unsubscribe/shrink call(s) on the second router began and returned within one of its deliveries (" + std::to_string(deliveries.size()) + " deliveries, " + std::to_string(writes.size()) + " writes)");
+    C.forwardCases++;
+    C.forwardedDeliveries += forwarded.load();
+    C.forwardWritesJudged += writes.size();
+    ++C.histories;
+    if (!gCaseFailed) {
+        rt::Hash h;
+        h.add(c); h.add((uint64_t) notifiers); h.add((uint64_t) rounds);
+        C.fps.push_back(h.get());
+        ++C.nontrivialCases;
+        sf->unsubscribe(); sb->unsubscribe();
+        delete front; delete back;
+    }
+}
+
 void onDeadlock(const std::string &desc) {
     rt::violation("C11", "quiescent-deadlock", "router", gDesc + ": every thread is blocked inside the router and nothing can wake it: " + desc);
 }
@@ -778,6 +861,7 @@ int main(int argc, char **argv) {
         if (rt::optStr("mode", "stress") == "lin") runLinCase(c, rt::Rng(rt::mix(rt::st().seed, c)));
         else if (rt::optStr("mode", "stress") == "fast") runFastCase(c, rt::Rng(rt::mix(rt::st().seed, c)));
         else if (rt::optStr("mode", "stress") == "crowd") runCrowdCase(c, rt::Rng(rt::mix(rt::st().seed, c)));
+        else if (rt::optStr("mode", "stress") == "forward") runForwardCase(c, rt::Rng(rt::mix(rt::st().seed, c)));
         else runCase(c, rt::Rng(rt::mix(rt::st().seed, c)));
         spy::recycle();
     }
@@ -788,7 +872,7 @@ int main(int argc, char **argv) {
                    .kv("callbacks", C.callbacks).kv("subscribes", C.subscribes).kv("unsubscribes", C.unsubscribes).kv("shrinks", C.shrinks).kv("existsCalls", C.existsCalls)
                    .kv("depthCalls", C.depthCalls).kv("writesOverlappingNotify", C.writesOverlappingNotify).kv("snapshotsJudged", C.snapshotsJudged)
                    .kv("snapshotsWithConcurrentWrite", C.snapshotsWithConcurrentWrite).kv("missedObserversJudged", C.missedJudged).kv("maxThreads", C.maxThreads)
-                   .kv("fastChurnCases", C.fastCases).kv("fastChurnOperations", C.fastOps).kv("deliveriesEndedByException", C.fastThrows).kv("staleHandleUnsubscribesRejected", C.fastStale).kv("crowdCases", C.crowdCases).kv("maxSimultaneousDeliveries", C.maxSimultaneousDeliveries).kv("linHistories", C.linHistories).kv("linOperations", C.linOps).kv("linSearchNodes", C.linNodes).kv("linInconclusive", C.linInconclusive).kv("linHistoriesWithOverlap", C.linWithOverlap).kv("nontrivialCases", C.nontrivialCases).kv("delaysInjected", k.afterWake.load() + k.condEntry.load() + k.beforeLock.load() + k.afterUnlock.load() + k.beforeNotify.load())
+                   .kv("fastChurnCases", C.fastCases).kv("fastChurnOperations", C.fastOps).kv("deliveriesEndedByException", C.fastThrows).kv("staleHandleUnsubscribesRejected", C.fastStale).kv("forwardingCases", C.forwardCases).kv("forwardedDeliveries", C.forwardedDeliveries).kv("writesJudgedAgainstForwardedDeliveries", C.forwardWritesJudged).kv("crowdCases", C.crowdCases).kv("maxSimultaneousDeliveries", C.maxSimultaneousDeliveries).kv("linHistories", C.linHistories).kv("linOperations", C.linOps).kv("linSearchNodes", C.linNodes).kv("linInconclusive", C.linInconclusive).kv("linHistoriesWithOverlap", C.linWithOverlap).kv("nontrivialCases", C.nontrivialCases).kv("delaysInjected", k.afterWake.load() + k.condEntry.load() + k.beforeLock.load() + k.afterUnlock.load() + k.beforeNotify.load())
                    .kv("lockParks", k.watchedCondWaits.load()).raw("samples", rt::jsonArray(C.samples, false)));
     return 0;
 }
